@@ -62,12 +62,17 @@ class Cfg:
     timeout_ms: int = 20000
     validate_samples: int = 3
     seed: int = 0
+    structural_only: bool = False  # skip solver obligations (properties without a value quantifier)
 
     @staticmethod
     def for_tier(tier, seed=0):
         if tier == "thorough":
             return Cfg(tier="thorough", nmax=4, nmax2=2, str_len=4, timeout_ms=120000, validate_samples=6, seed=seed)
         return Cfg(seed=seed)
+
+
+class _Done(Exception):
+    pass
 
 
 class FnTrace:
@@ -213,10 +218,14 @@ def _meta(tbl):
     import pydiverse.transform as pdt
     from pydiverse.transform.extended import columns
 
+    cols = tbl >> columns()
     return {
-        "columns": tbl >> columns(),
+        "columns": cols,
         "iter": [c.name for c in tbl],
         "len": len(tbl),
+        "contains": all(n in tbl for n in cols) and "__no_such_column__" not in tbl,
+        "dir": all(n in dir(tbl) for n in cols if n.isidentifier()),
+        "getitem": [tbl[n].name for n in cols],
     }
 
 
@@ -393,6 +402,11 @@ def check_pair(tp: Template, b: Built, cfg: Cfg, a: str, c: str, *, want_seq: bo
     """obligations for relation a ≡ relation c"""
     obls = []
     label = f"{a}≡{c}"
+    sa, sc = str(b.status.get(a)), str(b.status.get(c))
+    if a.rstrip("2") == c.rstrip("2") and (sa.startswith("refused") != sc.startswith("refused")):
+        # the same pipeline built from shared vs fresh objects: one is refused, the other accepted
+        obls.append(Obl(tp.name, label + "/acceptance", "structural-fail", detail={a: sa, c: sc}))
+        return obls
     for x in (a, c):
         st = b.status.get(x)
         if st != "ok":
@@ -487,7 +501,13 @@ def _structural(tp: Template, b: Built) -> list[Obl]:
         if be in b.rel:
             art_names = list(b.rel[be].names)
         o = Obl(tp.name, f"metadata:{be}")
-        ok = meta["columns"] == meta["iter"] and meta["len"] == len(meta["columns"])
+        ok = (
+            meta["columns"] == meta["iter"]
+            and meta["len"] == len(meta["columns"])
+            and meta["contains"]
+            and meta["dir"]
+            and meta["getitem"] == meta["columns"]
+        )
         if art_names is not None:
             ok = ok and art_names == meta["columns"]
         o.status = "structural-ok" if ok else "structural-fail"
@@ -655,6 +675,9 @@ def analyse(tp: Template, cfg: Cfg, *, known=None) -> dict:
             o.status = "structural-ok" if str(b.status.get("sqlite", "")).startswith("refused") else "structural-fail"
             o.detail = b.status
             obls.append(o)
+        if cfg.structural_only:
+            obls += structural(tp, b)
+            raise _Done()
         if tp.mode == "equiv":
             for be in tp.backends:
                 obls += check_pair(tp, b, cfg, be, be + "2", want_seq=tp.seq, known=known)
@@ -683,6 +706,8 @@ def analyse(tp: Template, cfg: Cfg, *, known=None) -> dict:
         for be in tp.backends:
             if str(b.status.get(be, "")).startswith("unsupported") and b.status.get("ref") == "ok":
                 obls.append(fallback_concrete(tp, b, cfg, rng, be))
+    except _Done:
+        pass
     except Exception as e:  # noqa: BLE001
         obls.append(Obl(tp.name, "analyse", f"harness-error:{type(e).__name__}:{e}", detail=traceback.format_exc()))
     arte = {}
